@@ -181,7 +181,11 @@ def match_keys(lines):
         if c.startswith("}"):
             opener = stack.pop() if stack else "?"
             closes -= 1
-            key = t + " @" + opener
+            # the KIND of the opener (its first word: for / while / loop / if / match / fn ...), not its full text: a loop whose
+            # head was edited still closes with "its" brace
+            words = re.sub(r"^'\w+:\s*", "", opener).replace("(", " ").split()
+            kind = next((w for w in words if w not in ("pub", "unsafe", "const", "let", "mut")), "?") if words else "?"
+            key = t + " @" + kind
         # remaining closers on this line (rare after rustfmt)
         for _ in range(min(closes, opens)):
             opens -= 1; closes -= 1
